@@ -14,6 +14,7 @@ import (
 	"os"
 	"sort"
 	"strings"
+	"time"
 
 	"github.com/iotaledger/hive.go/kvstore"
 	"github.com/iotaledger/hive.go/kvstore/mapdb"
@@ -210,14 +211,14 @@ type tsop struct {
 }
 
 type kcase struct {
-	Kind      string   `json:"kind"` // tv ts
-	Tag       string   `json:"tag"`
-	Faults    string   `json:"faults"`              // e.g. "00100"
-	InitRaw   []int    `json:"init_raw,omitempty"`  // tv: raw bytes under the key
-	InitThere bool     `json:"init_there,omitempty"`// tv: key present initially
+	Kind      string     `json:"kind"` // tv ts
+	Tag       string     `json:"tag"`
+	Faults    string     `json:"faults"`               // e.g. "00100"
+	InitRaw   []int      `json:"init_raw,omitempty"`   // tv: raw bytes under the key
+	InitThere bool       `json:"init_there,omitempty"` // tv: key present initially
 	InitStore [][2][]int `json:"init_store,omitempty"`
-	TV        []tvop   `json:"tv,omitempty"`
-	TS        []tsop   `json:"ts,omitempty"`
+	TV        []tvop     `json:"tv,omitempty"`
+	TS        []tsop     `json:"ts,omitempty"`
 }
 
 func toInts(b []byte) []int {
@@ -322,18 +323,18 @@ func (o tvop) apply(cur uint16, ex bool) (uint16, error) {
 var tvKey = []byte{0xC0, 0x06}
 
 type tvObs struct {
-	cls     string // "" = success
-	val     uint16
-	hasVal  bool
-	b       bool
-	hasB    bool
-	panicky bool
+	cls      string // "" = success
+	val      uint16
+	hasVal   bool
+	b        bool
+	hasB     bool
+	panicky  bool
 	cbCalled bool
-	cbCur   uint16
-	cbEx    bool
-	raw     []byte
-	there   bool
-	pos     int
+	cbCur    uint16
+	cbEx     bool
+	raw      []byte
+	there    bool
+	pos      int
 }
 
 func (x tvObs) resCoq() string {
@@ -557,16 +558,16 @@ type kvp struct {
 }
 
 type tsObs struct {
-	cls    string
-	val    uint16
-	hasVal bool
-	b      bool
-	hasB   bool
-	isList bool
-	isKeys bool
-	list   []kvp
-	store  []entry
-	pos    int
+	cls     string
+	val     uint16
+	hasVal  bool
+	b       bool
+	hasB    bool
+	isList  bool
+	isKeys  bool
+	list    []kvp
+	store   []entry
+	pos     int
 	panicky bool
 }
 
@@ -1017,6 +1018,23 @@ func emit(cf *vx.CasesFile, st *vx.Stats, c kcase) {
 	}
 }
 
+// emitGuarded runs one history under a watchdog: a call that never returns (a lock that is not released)
+// becomes a reported outcome instead of a stuck harness.
+func emitGuarded(cf *vx.CasesFile, st *vx.Stats, c kcase) bool {
+	done := make(chan struct{})
+	go func() {
+		emit(cf, st, c)
+		close(done)
+	}()
+	select {
+	case <-done:
+		return true
+	case <-time.After(30 * time.Second):
+		st.Fail(map[string]any{"sig": "", "case": c, "why": "hang: the history did not finish within 30 s (a lock is not released?)"})
+		return false
+	}
+}
+
 func coqStoreInit(c kcase) string {
 	// the initial store as the sorted list mapdb holds after the initial Sets
 	inner := mapdb.NewMapDB()
@@ -1048,15 +1066,23 @@ func main() {
 	cf := &vx.CasesFile{Header: header, Type: "case", Footer: footer}
 	switch os.Args[1] {
 	case "hist":
+		ok := true
 		for _, c := range directed() {
-			emit(cf, st, c)
+			ok = ok && emitGuarded(cf, st, c)
 		}
-		for cf.Len() < *n {
+		for ok && cf.Len() < *n {
 			if r.Intn(100) < 62 {
-				emit(cf, st, genTV(r.Fork(), 3+r.Intn(*maxLen)))
+				ok = emitGuarded(cf, st, genTV(r.Fork(), 3+r.Intn(*maxLen)))
 			} else {
-				emit(cf, st, genTS(r.Fork(), 3+r.Intn(*maxLen)))
+				ok = emitGuarded(cf, st, genTS(r.Fork(), 3+r.Intn(*maxLen)))
 			}
+		}
+		if !ok {
+			// the stuck goroutine may still own cf: report the hang only
+			if err := st.Write(*stats); err != nil {
+				vx.Die("%v", err)
+			}
+			return
 		}
 	case "replay":
 		b, err := os.ReadFile(*casePath)
@@ -1067,7 +1093,13 @@ func main() {
 		if err := json.Unmarshal(b, &c); err != nil {
 			vx.Die("%v", err)
 		}
-		emit(cf, st, c)
+		if !emitGuarded(cf, st, c) {
+			if err := st.Write(*stats); err != nil {
+				vx.Die("%v", err)
+			}
+			fmt.Println("hang")
+			return
+		}
 		fmt.Println(cf.Len(), "case replayed; oracle failures:", len(st.OracleFailures))
 		for _, f := range st.OracleFailures {
 			fmt.Println(f)
